@@ -1,7 +1,7 @@
 (* Properties.v — the property theorems, and nothing else.  Each is closed by [exact] of a lemma
    proved in the Proofs* files and followed by Print Assumptions. *)
 From Coq Require Import Permutation.
-From Godi Require Import Base GDfs GKahn GKahnComplete GraphSpec Conc Web Model Check ProofsGraph ProofsConc ProofsWeb ProofsRegistry ProofsRuntime ProofsClosed ProofsTerm ProofsWf ProofsSingle ProofsOutputs ProofsFresh ProofsGen ProofsFrame ProofsFrozen ProofsOnce ProofsConserve ProofsOnceWorld ProofsCloses ProofsOrder ProofsStable.
+From Godi Require Import Base GDfs GKahn GKahnComplete GraphSpec Conc Web Model Check ProofsGraph ProofsConc ProofsWeb ProofsRegistry ProofsRuntime ProofsClosed ProofsTerm ProofsWf ProofsSingle ProofsOutputs ProofsFresh ProofsGen ProofsFrame ProofsFrozen ProofsOnce ProofsConserve ProofsOnceWorld ProofsCloses ProofsOrder ProofsStable ProofsCalls.
 
 (* ---------------------------------------------------------------- C01 *)
 Theorem C01_resolving_a_singleton_is_a_table_read : forall fuel rs h d,
@@ -73,6 +73,18 @@ Theorem C02_scoped_instance_is_the_same_forever : forall c fuel fuel' rs h d d' 
   snd (resolve_d (S fuel') (fst (resolve_d fuel rs h d')) h d) = ROkV (aval_of i).
 Proof. exact scoped_instance_is_the_same_forever. Qed.
 Print Assumptions C02_scoped_instance_is_the_same_forever.
+
+(* the premise [calls_wf] is an invariant of the registry: it holds after every history of registrations (no field with
+   both name and group, no As on an initializer), removals and modules; a scope that has answered nothing yet has its
+   calls "together" *)
+Theorem C02_registries_built_by_histories_have_wellformed_calls : forall ops,
+  Forall op_calls_ok ops -> calls_wf (w_coll (fst (run_from init_world ops))).
+Proof. exact calls_wf_after_every_history. Qed.
+Print Assumptions C02_registries_built_by_histories_have_wellformed_calls.
+
+Theorem C02_a_fresh_scope_has_its_calls_together : forall c p h, cache_of p h = [] -> together c p h.
+Proof. exact together_empty. Qed.
+Print Assumptions C02_a_fresh_scope_has_its_calls_together.
 
 (* under concurrency the statement is FALSE of the code as it is (finding F13, kept as a known finding): two
    goroutines that resolve one scoped service in one scope can both construct it.  Decided by computation on
